@@ -214,6 +214,19 @@ def mapVL (t : RT) : List VEnt → List VEnt
   | e :: es => mapV t e :: mapVL t es
 end
 
+mutual
+/-- a point map applied to the OUTPUT geometry leaf by leaf (what `ElementBase.shear` does to an entity: points, array
+    rows and axis directions alike; the tree keeps its shape, cached functions are dropped) -/
+def shearV (f : V3 → V3) : VEnt → VEnt
+  | .pt v => .pt (f v)
+  | .dir v => .dir (f v)
+  | .arr vs => .arr (vs.map f)
+  | .node k a ch => .node k (touchAttr k a) (shearVL f ch)
+def shearVL (f : V3 → V3) : List VEnt → List VEnt
+  | [] => []
+  | e :: es => shearV f e :: shearVL f es
+end
+
 /-! ### centres (default origins) -/
 
 def vsum (ps : List V3) : V3 := ps.foldl (· + ·) V3.zero
